@@ -131,6 +131,29 @@ pub proof fn lemma_partial_le_total(stakes: Seq<int>, i: int)
     if i < stakes.len() { lemma_partial_le_total(stakes, i + 1); }
 }
 
+// the stake bin b holds (finding F10): the first r bins one unit more than the others
+pub open spec fn cap(q: int, r: int, b: int) -> int { if b < r { q + 1 } else { q } }
+// the stake the bins before b hold together
+pub open spec fn capsum(q: int, r: int, b: int) -> int { b * q + (if b < r { b } else { r }) }
+pub proof fn lemma_capsum_all(q: int, r: int, n: int)
+    requires 0 <= r < n,
+    ensures capsum(q, r, n) == n * q + r, capsum(q, r, n - 1) + cap(q, r, n - 1) == n * q + r,
+{
+    assert((n - 1) * q + q == n * q) by (nonlinear_arith) {}
+}
+pub proof fn lemma_capsum_step(q: int, r: int, b: int)
+    requires b >= 0, r >= 0,
+    ensures capsum(q, r, b + 1) == capsum(q, r, b) + cap(q, r, b),
+{
+    assert((b + 1) * q == b * q + q) by (nonlinear_arith) {}
+}
+pub proof fn lemma_capsum_mono(q: int, r: int, a: int, b: int)
+    requires 0 <= a <= b, q >= 1, r >= 0,
+    ensures capsum(q, r, a) + (b - a) <= capsum(q, r, b),
+{
+    assert(b * q >= a * q + (b - a)) by (nonlinear_arith) requires a <= b, q >= 1 {}
+}
+
 pub mod code {
 use super::*;
 
@@ -146,7 +169,7 @@ ensures
 
 impl PartitionSampler {
 /*@ extract src/disseminator/rotor/sampling_strategy.rs :: impl PartitionSampler/fn new
-props C17
+props C17 C16
 ret r
 rewrite*[R8] `vec![Vec::new(); num_bins]` => `verif_vec_of_empty(num_bins)`
 rewrite[R8] `validators.iter().map(|v| v.stake).sum()` => `verif_total_stake(&validators)`
@@ -160,9 +183,12 @@ rewrite[R8] `WeightedIndex::new(stakes.iter().map(|s| s.inner())) .expect("valid
 rewrite[R10] `let mut current_bin = 0;` => `let mut current_bin: usize = 0;`
 rewrite[R10] `let mut bins = Vec::with_capacity(num_bins);` => `let mut bins: Vec<WeightedIndex> = Vec::with_capacity(num_bins);`
 requires
-        // "every validator set with positive stakes" whose total fits the stake type
+        // "every validator set with positive stakes" whose total fits the stake type ...
         forall|i: int| 0 <= i < validators@.len() ==> (#[trigger] validators@[i]).stake.0 > 0,
         total_of(validators@) <= u64::MAX,
+        // ... and gives every bin at least one unit of stake (the documented panic otherwise; FA1 hands over a residual total
+        // of at least one unit per remaining seat, see new_with_partition_fallback)
+        num_bins > 0 ==> total_of(validators@) >= num_bins,
 ensures
         // [C17.one_sampling_bin_per_seat]
         r.bins@.len() == num_bins && r.bin_validators@.len() == num_bins && r.bin_stakes@.len() == num_bins,
@@ -172,23 +198,24 @@ before `let mut current_bin: usize = 0;`
         let ghost vals = validators_random@;
         let ghost stakes = spec_stakes(vals);
         let ghost tt = total_stake.0 as int;
-        let ghost pp = stake_per_bin.0 as int;
+        let ghost q = small_bin as int;
+        let ghost rr = num_large_bins as int;
         let ghost nn = num_bins as int;
         proof {
-            assert(nn * pp >= tt) by (nonlinear_arith)
-                requires nn > 0, tt >= 0, pp == (if tt % nn == 0 { tt / nn } else { tt / nn + 1 }) {}
+            assert(nn * q + rr == tt && 0 <= rr < nn && q >= 1) by (nonlinear_arith)
+                requires nn > 0, tt >= nn, q == tt / nn, rr == tt % nn {}
             assert forall|k: int| 0 <= k < stakes.len() implies stakes[k] > 0 by {}
         }
 loop 0
         invariant
-            vals == validators_random@ && stakes == spec_stakes(vals) && tt == total_of(vals) && pp == stake_per_bin.0 && nn == num_bins && nn > 0,
-            nn * pp >= tt && tt <= u64::MAX,
+            vals == validators_random@ && stakes == spec_stakes(vals) && tt == total_of(vals) && q == small_bin && rr == num_large_bins && nn == num_bins && nn > 0,
+            nn * q + rr == tt && 0 <= rr < nn && q >= 1 && tt <= u64::MAX,
             forall|k: int| 0 <= k < stakes.len() ==> stakes[k] > 0,
             verif_i <= vals.len(),
             current_bin < num_bins && bin_validators@.len() == num_bins && bin_stakes@.len() == num_bins,
-            current_bin_stake.0 <= pp,
-            current_bin * pp + current_bin_stake.0 == sum_where(stakes, verif_i as int, all_true()),
-            current_bin_stake.0 == pp && pp > 0 ==> current_bin == num_bins - 1,
+            current_bin_stake.0 <= cap(q, rr, current_bin as int),
+            capsum(q, rr, current_bin as int) + current_bin_stake.0 == sum_where(stakes, verif_i as int, all_true()),
+            current_bin_stake.0 == cap(q, rr, current_bin as int) ==> current_bin == num_bins - 1,
             forall|b: int| 0 <= b < num_bins ==> (#[trigger] bin_validators@[b])@.len() == bin_stakes@[b]@.len(),
             forall|b: int, k: int| 0 <= b < num_bins && 0 <= k < bin_validators@[b]@.len() ==> is_member(vals, #[trigger] bin_validators@[b]@[k]),
             // bins before the current one have been filled
@@ -197,28 +224,31 @@ loop 0
         decreases vals.len() - verif_i,
 loop 1
         invariant
-            vals == validators_random@ && stakes == spec_stakes(vals) && tt == total_of(vals) && pp == stake_per_bin.0 && nn == num_bins && nn > 0,
-            nn * pp >= tt && tt <= u64::MAX,
+            vals == validators_random@ && stakes == spec_stakes(vals) && tt == total_of(vals) && q == small_bin && rr == num_large_bins && nn == num_bins && nn > 0,
+            nn * q + rr == tt && 0 <= rr < nn && q >= 1 && tt <= u64::MAX,
             forall|k: int| 0 <= k < stakes.len() ==> stakes[k] > 0,
             0 < verif_i <= vals.len(),
             current_bin < num_bins && bin_validators@.len() == num_bins && bin_stakes@.len() == num_bins,
-            current_bin_stake.0 <= pp,
-            current_bin * pp + current_bin_stake.0 + stake.0 == sum_where(stakes, verif_i as int, all_true()),
-            current_bin_stake.0 == pp && pp > 0 ==> current_bin == num_bins - 1,
+            current_bin_stake.0 <= cap(q, rr, current_bin as int),
+            capsum(q, rr, current_bin as int) + current_bin_stake.0 + stake.0 == sum_where(stakes, verif_i as int, all_true()),
+            current_bin_stake.0 == cap(q, rr, current_bin as int) ==> current_bin == num_bins - 1,
             forall|b: int| 0 <= b < num_bins ==> (#[trigger] bin_validators@[b])@.len() == bin_stakes@[b]@.len(),
             forall|b: int, k: int| 0 <= b < num_bins && 0 <= k < bin_validators@[b]@.len() ==> is_member(vals, #[trigger] bin_validators@[b]@[k]),
             v.id == vals[verif_i - 1].id,
             forall|b: int| 0 <= b < current_bin ==> nonempty_pos((#[trigger] bin_stakes@[b])@),
             current_bin_stake.0 > 0 ==> nonempty_pos(bin_stakes@[current_bin as int]@),
         decreases stake.0,
+before `let stake_per_bin = if current_bin < num_large_bins {`
+        proof { assert(rr > 0 ==> q + 1 <= tt) by (nonlinear_arith) requires nn * q + rr == tt, nn >= 1, q >= 1 {} }
 before `verif_push_at(&mut bin_validators, current_bin, v.id);`
         proof {
+            assert(stake_per_bin.0 == cap(q, rr, current_bin as int));
             lemma_partial_le_total(stakes, verif_i as int);
             // room is left in the current bin: otherwise it is the last bin and everything has been assigned already
-            if current_bin_stake.0 == pp {
-                assert(current_bin * pp + pp == nn * pp) by (nonlinear_arith) requires current_bin == nn - 1 || pp == 0 {}
+            if current_bin_stake.0 == cap(q, rr, current_bin as int) {
+                lemma_capsum_all(q, rr, nn);
             }
-            assert(current_bin_stake.0 < pp);
+            assert(current_bin_stake.0 < stake_per_bin.0);
         }
         let ghost cb0 = current_bin;
         let ghost bs0 = bin_stakes@;
@@ -239,8 +269,8 @@ after `stake -= stake_to_take;`
         }
 before `current_bin += 1;`
         proof {
-            assert(current_bin_stake.0 == pp);
-            assert((current_bin + 1) * pp == current_bin * pp + pp) by (nonlinear_arith) {}
+            assert(current_bin_stake.0 == cap(q, rr, current_bin as int));
+            lemma_capsum_step(q, rr, current_bin as int);
         }
 loop 2
         invariant
@@ -249,10 +279,19 @@ loop 2
             forall|b: int| 0 <= b < num_bins ==> (#[trigger] bin_validators@[b])@.len() == bin_stakes@[b]@.len(),
             forall|b: int| 0 <= b < verif_b ==> (#[trigger] bins@[b]).spec_len() == bin_validators@[b]@.len(),
             forall|b: int, k: int| 0 <= b < num_bins && 0 <= k < bin_validators@[b]@.len() ==> is_member(vals, #[trigger] bin_validators@[b]@[k]),
+            // [C17.every_bin_can_be_sampled] every bin got a share (finding F10: with one common bin size the last bins stayed empty)
+            forall|b: int| 0 <= b < num_bins ==> nonempty_pos((#[trigger] bin_stakes@[b])@),
         decreases bin_stakes@.len() - verif_b,
 before `let mut bins: Vec<WeightedIndex> = Vec::with_capacity(num_bins);`
         proof {
             assert forall|id: ValidatorIndex| #[trigger] is_member(vals, id) implies is_member(validators0, id) by {}
+            // all the stake has been assigned: the current bin is the last one and it is full
+            lemma_capsum_all(q, rr, nn);
+            lemma_capsum_step(q, rr, current_bin as int);
+            lemma_capsum_mono(q, rr, current_bin as int + 1, nn);
+            assert(current_bin == num_bins - 1);
+            assert(current_bin_stake.0 == cap(q, rr, current_bin as int));
+            assert forall|b: int| 0 <= b < num_bins implies nonempty_pos((#[trigger] bin_stakes@[b])@) by {}
         }
 before `let mut validators_random = validators;`
         let ghost validators0 = validators@;
